@@ -182,13 +182,13 @@ def _send_key(step):
     if not isinstance(m, dict):
         return "?"
     q = m.get("q") if isinstance(m.get("q"), dict) else {}
-    return "%s/%s/%s/%s/%s/%s" % (m.get("t"), m.get("kind", ""), m.get("name", ""), m.get("portal", ""), m.get("stmt", ""),
-                                 q.get("id", ""))
+    return "%s/%s/%s/%s/%s/%s/%s" % (m.get("t"), m.get("kind", ""), m.get("name", ""), m.get("portal", ""), m.get("stmt", ""),
+                                    q.get("id", ""), m.get("rfmt", ""))
 
 
 def subsample(cx, path, n):
     """Keep a seeded subset of n behaviours (quick tier: the model is checked exhaustively, the replay through
-    the implementation is sampled). The sample is stratified by the last three client messages of a behaviour
+    the implementation is sampled). The sample is stratified by the last client messages (up to six, Sync aside) of a behaviour
     (type and names): TLC exports one behaviour per transition of the state graph, so a particular short
     history (Bind, Close, Execute of the same name) exists exactly once and must not be left to chance."""
     import random
@@ -200,7 +200,7 @@ def subsample(cx, path, n):
     for i, l in enumerate(ls):
         try:
             steps = json.loads(l).get("steps", [])
-            key = "|".join(_send_key(s) for s in steps[-3:])
+            key = "|".join(_send_key(s) for s in steps[-6:] if _send_key(s) != "S//////")
         except Exception:
             key = "?"
         groups.setdefault(key, []).append(i)
